@@ -281,3 +281,22 @@ func dataType2CommonType(t byte) common.DataType {
 		return common.NONE
 	}
 }
+
+// lastOccurrenceIndexes returns, for a list of element names given in one command, the index of the
+// last occurrence of each name. It returns nil if no name can repeat (less than two names).
+// Commands that take several elements (hmset, sadd, zadd) must handle each distinct element once,
+// with the last given value winning, otherwise the collection size is counted more than once.
+func lastOccurrenceIndexes(n int, name func(i int) []byte) map[string]int {
+	if n < 2 {
+		return nil
+	}
+	last := make(map[string]int, n)
+	for i := 0; i < n; i++ {
+		last[string(name(i))] = i
+	}
+	if len(last) == n {
+		// all distinct
+		return nil
+	}
+	return last
+}
